@@ -23,7 +23,7 @@ from .. import probe
 
 PROPERTY = 'C14'
 LEVEL = 'fault_enumeration'
-RULE = ('cases are (static configuration, request path[, fault point]): a generated tree (nested directories; text, binary and empty '
+RULE = ('cases are (static configuration, request path[, fault point]): a generated tree (nested directories; text, binary and empty; whole-second and fractional mtimes; siblings whose names begin with a root\'s name; '
         'files; names with dots, spaces, non-ASCII, a leading-dot and a leading-".." name; secrets beside and above the roots) '
         'served from one or two search paths under a mount prefix in each slash mode; request paths = every sequence of <=3 '
         '(quick) / <=4 (thorough) segments from {file and directory names, ".", "..", "", "...", pieces of the absolute root and '
@@ -35,9 +35,10 @@ EXHAUSTIVE = {'quick': 'all segment sequences of length <=3 over the 17-segment 
 ASSUMPTIONS = ['faults are injected into filesystem calls made until the application callable returns its iterable (O8)',
                'os.path.isfile never raises: its fault is a False result', 'the tree is symlink-free',
                'a contained but non-canonical path (".", inner "..", repeated slashes) may be served or refused; if served it must be the mapped file']
+# which filesystem calls the implementation makes is its own business: only "some fault was injected" is required,
+# the per-call counters (fault:open, fault:getmtime, ...) are reported in the evidence
 REQUIRED_REACH = ['served-and-compared', 'canonical-file-served', 'escape:dotdot-refused', 'escape:absolute-refused',
-                  'escape:secret-path-pieces-refused', 'noncanonical-contained', 'fault-injected', 'fault:open', 'fault:getmtime',
-                  'fault:getsize', 'fault:isfile', 'fault:read', 'fallthrough-to-second-app', '304-observed', 'first-search-path-wins',
+                  'escape:secret-path-pieces-refused', 'noncanonical-contained', 'fault-injected', 'fallthrough-to-second-app', '304-observed', 'first-search-path-wins',
                   'audit-opens-seen', 'mode:redirect', 'mode:rewrite', 'mode:strict']
 NSHARDS = 16
 ERRNOS = [errno.ENOENT, errno.EACCES, errno.EIO, errno.EISDIR]
@@ -87,13 +88,17 @@ class Tree(object):
                 data = ('file %s nonce %s\n' % (path, nonce)).encode('utf8') * 3
             with open(path, 'wb') as f:
                 f.write(data)
-            t = mtime or (1500000000 + n[0] * 1000)
+            # whole-second and fractional modification times (.25, .5, .75, .99)
+            t = mtime or (1500000000 + n[0] * 1000 + [0, 0.25, 0.5, 0.75, 0.99][n[0] % 5])
             os.utime(path, (t, t))
             self.files[path] = data
             self.nonces[path] = nonce.encode()
         put(os.path.join(self.base, 'above-secret.txt'))
         put(os.path.join(self.area, 'secret.txt'))
         put(os.path.join(self.area, 'beside', 'secret2.txt'))
+        # siblings whose names merely *begin* with the root's name
+        put(os.path.join(self.area, 'root1-private', 'key.txt'))
+        put(os.path.join(self.area, 'root1.bak'))
         for rel, kind in [('a.txt', 'text'), ('b.bin', 'binary'), ('empty', 'empty'), ('sub/c.html', 'text'),
                           ('sub/deep/d.txt', 'text'), ('sp ace.txt', 'text'), ('é.txt', 'text'), ('.hidden', 'text'),
                           ('..data', 'text'), ('noext', 'binary'), ('sub/x.y.z', 'text'), ('both.txt', 'text'), ('crlf.txt', 'crlf'),
@@ -210,7 +215,7 @@ def judge(sh, cfg, segs, record=None, faulted=False):
         return ex, kind
     if kind.startswith('escape'):
         sh.hit('escape:dotdot-refused' if kind == 'escape-dotdot' else 'escape:absolute-refused')
-        if any(s in ('area', 'secret.txt', 'beside', 'secret2.txt', 'above-secret.txt') for s in segs):
+        if any(s in ('area', 'secret.txt', 'beside', 'secret2.txt', 'above-secret.txt', 'root1-private', 'root1.bak') for s in segs):
             sh.hit('escape:secret-path-pieces-refused')
         if ex.status == 200:
             bad('escaping-path-served', '200 with %d bytes' % len(body))
@@ -316,6 +321,9 @@ class Faults(object):
             def __getattr__(self, name):
                 return getattr(self._f, name)
 
+            def fileno(self):
+                return self._f.fileno()
+
             def __iter__(self):
                 return iter(self._f)
 
@@ -352,6 +360,18 @@ class Faults(object):
 
             def __getattr__(self, name):
                 return getattr(os, name)
+
+            def stat(self, *a, **kw):
+                e = tick('stat', None)
+                if e:
+                    raise OSError(e, os.strerror(e))
+                return os.stat(*a, **kw)
+
+            def fstat(self, *a, **kw):
+                e = tick('fstat', None)
+                if e:
+                    raise OSError(e, os.strerror(e))
+                return os.fstat(*a, **kw)
         st.open = f_open
         st.isfile = f_isfile
         st.os = OsProxy()
@@ -422,7 +442,7 @@ def judge_faults(sh, cfg, segs, faults, headers=None):
 def vocabulary(tree):
     pieces = [p for p in tree.root1.split(os.sep) if p][-3:]      # e.g. verif-c14-xxxx, area, root1
     return ['a.txt', 'sub', 'c.html', 'deep', 'both.txt', 'sp ace.txt', '..data', '.hidden', '.', '..', '', '...',
-            'secret.txt', 'beside', 'secret2.txt', 'above-secret.txt'] + pieces[:2]
+            'secret.txt', 'beside', 'secret2.txt', 'above-secret.txt', 'root1-private', 'key.txt', 'root1.bak'] + pieces[:2]
 
 
 def configs(tree):
